@@ -36,7 +36,9 @@ StepsTwo == {None, 1, -1, 2, -2}
 CmpAll   == {None, -1, 2, -2}
 CmpFew   == {None, -1}
 
-RootsQuick == {<<"A", "?", "-", "R", "T", "C", "A">>}
+(* every root keeps a run of >= 4 monomers, so that both strands have views whose length is 1 and 2 mod 3   *)
+(* (translation with an incomplete last codon), next to gaps, missing data and degenerate symbols        *)
+RootsQuick == {<<"R", "-", "A", "T", "G", "A", "?">>}
 RootsThorough == {<<"A", "A", "C", "-", "R", "G", "T">>,
                   <<"-", "A", "?", "C", "N", "T", "-">>,
                   <<"A", "T", "G", "A", "T", "A", "A">>,
